@@ -193,7 +193,13 @@ def gen_ev1(mod, out):
         if "self.theirTubRef" not in fr.env:
             raise U("evaluateNegotiationVersion1: self.theirTubRef is not set by the identity checks")
         return "Ok %s" % fr.env["self.theirTubRef"][0]
-    text = fr.block(body[i0 + 1:i1 + 1], done)
+    seg = body[i0 + 1:i1 + 1]
+    i_cert = [i for i, x in enumerate(seg) if isinstance(x, ast.If) and un(x.test) == "self.theirCertificate is None"]
+    i_assert = [i for i, x in enumerate(seg) if isinstance(x, ast.Assert)]
+    i_store = [i for i, x in enumerate(seg) if isinstance(x, ast.Assign) and un(x.targets[0]) == "self.theirTubRef"]
+    if not (len(i_cert) == 1 and len(i_assert) == 1 and len(i_store) == 1 and i_cert[0] < i_assert[0] < i_store[0] < len(seg) - 1):
+        raise U("evaluateNegotiationVersion1: expected certificate test, assert, `self.theirTubRef = ..`, client test in that order")
+    text = fr.block(seg, done)
     out.append("Section Ev1.\nVariable cert : Type.\nVariable tubid_of : cert -> list Z.\n\n"
                "(* evaluateNegotiationVersion1, lines %d-%d: result = the tub id stored in self.theirTubRef *)\n"
                "Definition ev1_identity (isClient : bool) (target : list Z) (theirCertificate : option cert)\n"
@@ -373,6 +379,140 @@ def gen_tub(out):
         raise U("Tub._getReference no longer asks getBrokerForTubRef(sturdy.getTubRef())")
 
 
+PHASES = {"ENCRYPTED": "PhEncrypted", "DECIDING": "PhDeciding", "BANANA": "PhBanana", "ABANDONED": "PhAbandoned"}
+
+
+def phase_assigns(fn):
+    """[(assign node, phase constructor)] for every `self.receive_phase = NAME` inside fn"""
+    out = []
+    for n in ast.walk(fn):
+        if isinstance(n, ast.Assign) and any(un(t) == "self.receive_phase" for t in n.targets):
+            v = un(n.value)
+            if v not in PHASES:
+                raise U("%s: self.receive_phase is set to %s" % (getattr(fn, "name", "?"), v))
+            out.append((n, PHASES[v]))
+        if isinstance(n, ast.AugAssign) and un(n.target) == "self.receive_phase":
+            raise U("%s: augmented assignment to self.receive_phase" % getattr(fn, "name", "?"))
+    return out
+
+
+def gen_phases(mod, out):
+    """where the receive phase changes around the evaluation of a hello (what a peer that keeps sending after a
+    rejected hello gets to talk to)"""
+    cls = P.find_class(mod, "Negotiation")
+    out.append("Inductive phase := PhEncrypted | PhDeciding | PhBanana | PhAbandoned.")
+    allowed = {"startENCRYPTED", "evaluateNegotiationVersion1", "negotiationFailed", "handleENCRYPTED", "dataReceived"}
+    for f in cls.body:
+        if isinstance(f, ast.FunctionDef) and f.name not in allowed and phase_assigns(f):
+            raise U("self.receive_phase is assigned in Negotiation.%s" % f.name)
+    se = phase_assigns(P.find_def(mod, "Negotiation.startENCRYPTED"))
+    if [v for _, v in se] != ["PhEncrypted"]:
+        raise U("startENCRYPTED no longer sets receive_phase = ENCRYPTED exactly once")
+    nf = phase_assigns(P.find_def(mod, "Negotiation.negotiationFailed"))
+    if [v for _, v in nf] != ["PhAbandoned"]:
+        raise U("negotiationFailed no longer sets receive_phase = ABANDONED exactly once")
+    # dataReceived: dispatch on the phase; what the error handler does to the phase
+    dr = P.find_def(mod, "Negotiation.dataReceived")
+    first_ifs = [s_ for s_ in dr.body if isinstance(s_, ast.If) and un(s_.test) == "self.receive_phase == ABANDONED"]
+    if len(first_ifs) != 1 or not isinstance(first_ifs[0].body[0], ast.Return):
+        raise U("dataReceived: `if self.receive_phase == ABANDONED: return` changed")
+    tries = [s_ for s_ in dr.body if isinstance(s_, ast.Try)]
+    if len(tries) != 1 or len(tries[0].handlers) != 1 or un(tries[0].handlers[0].type) != "Exception" \
+            or tries[0].finalbody or tries[0].orelse:
+        raise U("dataReceived: expected one try/except Exception around the phase dispatch")
+    tr = tries[0]
+    disp = {}
+    for n in ast.walk(ast.Module(body=tr.body, type_ignores=[])):
+        if isinstance(n, ast.If) and un(n.test).startswith("self.receive_phase == "):
+            disp[un(n.test)[len("self.receive_phase == "):]] = [un(x) for x in n.body]
+    if disp.get("ENCRYPTED") != ["self.handleENCRYPTED(header)"] or disp.get("DECIDING") != ["self.handleDECIDING(header)"]:
+        raise U("dataReceived: ENCRYPTED/DECIDING dispatch changed: %r" % disp)
+    if phase_assigns(ast.Module(body=tr.body, type_ignores=[])):
+        raise U("dataReceived: receive_phase assigned inside the dispatch")
+    h = tr.handlers[0]
+    hs = [(n, PHASES.get(un(n.value))) for n in ast.walk(ast.Module(body=h.body, type_ignores=[]))
+          if isinstance(n, ast.Assign) and any(un(t) == "self.receive_phase" for t in n.targets)]
+    if not hs:
+        handler = "None"
+    elif len(hs) == 1 and hs[0][0] in h.body and hs[0][1]:
+        handler = "(Some %s)" % hs[0][1]
+    else:
+        raise U("dataReceived: the error handler assigns receive_phase conditionally or more than once")
+    hsrc = un(ast.Module(body=h.body, type_ignores=[]))
+    if "self.transport.loseConnection()" not in hsrc or "self.failureReason = why" not in hsrc:
+        raise U("dataReceived: the error handler no longer records the failure and drops the connection")
+    out.append("(* dataReceived's `except Exception` handler: receive_phase assignment in it, if any *)\n"
+               "Definition phase_set_by_error_handler : option phase := %s." % handler)
+    # handleENCRYPTED: phase in which evaluateHello runs
+    he = P.find_def(mod, "Negotiation.handleENCRYPTED")
+    calls = [i for i, s_ in enumerate(he.body) if any(isinstance(n, ast.Call) and un(n.func) == "self.evaluateHello"
+                                                     for n in ast.walk(s_))]
+    if len(calls) != 1 or un(he.body[calls[0]]) not in ("self.evaluateHello(hello)", "return self.evaluateHello(hello)"):
+        raise U("handleENCRYPTED: expected one top-level call self.evaluateHello(hello)")
+    ic = calls[0]
+    during = "PhEncrypted"
+    for n, v in phase_assigns(he):
+        if n not in he.body or he.body.index(n) > ic:
+            raise U("handleENCRYPTED: receive_phase assigned conditionally or after evaluateHello (line %d)" % n.lineno)
+        during = v
+    if phase_assigns(P.find_def(mod, "Negotiation.evaluateHello")):
+        raise U("evaluateHello assigns receive_phase")
+    pre = he.body[:ic]
+    order = [un(x) for x in pre]
+    want = ["self.theirCertificate = None", "them = crypto.peerFromTransport(self.transport)", "hello = self.parseLines(header)"]
+    pos = [next((i for i, t in enumerate(order) if t == w), None) for w in want]
+    if None in pos or pos != sorted(pos):
+        raise U("handleENCRYPTED: certificate lookup / parseLines order changed")
+    errs = [i for i, x in enumerate(pre) if isinstance(x, ast.If) and un(x.test) == "'error' in hello"
+            and isinstance(x.body[0], ast.Raise)]
+    if len(errs) != 1 or errs[0] < pos[2]:
+        raise U("handleENCRYPTED: the `error` block test changed")
+    for n, v in phase_assigns(he):
+        if he.body.index(n) < errs[0]:
+            raise U("handleENCRYPTED: receive_phase assigned before the block is parsed (line %d)" % n.lineno)
+    out.append("(* value of receive_phase while evaluateHello (and so every identity check) runs *)\n"
+               "Definition phase_during_evaluate_hello : phase := %s." % during)
+    # evaluateNegotiationVersion1: the non-deciding end's phase after an accepted hello
+    ev1 = P.find_def(mod, "Negotiation.evaluateNegotiationVersion1")
+    pa = phase_assigns(ev1)
+    ends = [i for i, s_ in enumerate(ev1.body) if isinstance(s_, ast.If) and un(s_.test) == "self.isClient"]
+    if len(pa) == 0:
+        slave = during
+    elif len(pa) == 1:
+        node, slave = pa[0]
+        holders = [s_ for s_ in ev1.body[ends[0] + 1:] if isinstance(s_, ast.If) and un(s_.test) == "iAmTheMaster"
+                   and node in s_.orelse]
+        if len(holders) != 1:
+            raise U("evaluateNegotiationVersion1: receive_phase is not assigned in the else-branch of a top-level "
+                    "`if iAmTheMaster:` after the identity checks (line %d)" % node.lineno)
+    else:
+        raise U("evaluateNegotiationVersion1 assigns receive_phase %d times" % len(pa))
+    out.append("(* phase in which the non-deciding end waits after it accepted a hello *)\n"
+               "Definition slave_phase_after_accept : phase := %s." % slave)
+    hd = un(P.find_def(mod, "Negotiation.handleDECIDING"))
+    for frag in ("decision = self.parseLines(header)", "params = self.acceptDecision(decision)", "self.switchToBanana(params)"):
+        if frag not in hd:
+            raise U("handleDECIDING no longer contains: " + frag)
+    ad = P.find_def(mod, "Negotiation.acceptDecisionVersion1")
+    if "self.theirTubRef in self.tub.brokers" not in un(ad):
+        raise U("acceptDecisionVersion1 no longer reads self.theirTubRef")
+
+
+def gen_peer(out):
+    cm = P.load("crypto.py")
+    defs = [n for n in cm.body if isinstance(n, (ast.FunctionDef, ast.ClassDef)) and n.name == "peerFromTransport"]
+    asg = [n for n in cm.body if isinstance(n, ast.Assign) and any(un(t) == "peerFromTransport" for t in n.targets)]
+    if defs or len(asg) != 1 or un(asg[0].value) != "Certificate.peerFromTransport":
+        raise U("crypto.peerFromTransport is no longer twisted's Certificate.peerFromTransport (the certificate the peer "
+                "authenticated the TLS session with)")
+    imps = [n for n in cm.body if isinstance(n, ast.ImportFrom) and n.module == "twisted.internet.ssl"
+            and any(a.name == "Certificate" and a.asname is None for a in n.names)]
+    if len(imps) != 1:
+        raise U("crypto.py no longer imports Certificate from twisted.internet.ssl")
+    out.append("(* crypto.peerFromTransport = twisted.internet.ssl.Certificate.peerFromTransport *)\n"
+               "Inductive cert_choice := LeafOfHandshake.\nDefinition peer_cert_choice : cert_choice := LeafOfHandshake.")
+
+
 def generate():
     mod = P.load("negotiate.py")
     out = [P.PRELUDE % dict(src="negotiate.py, pb.py, referenceable.py, broker.py")]
@@ -384,6 +524,8 @@ def generate():
                "(* truthiness of (str | None) *)\n"
                "Definition ostr_truthy (a : option (list Z)) : bool := match a with Some (_ :: _) => true | _ => false end.")
     gen_ev1(mod, out)
+    gen_peer(out)
+    gen_phases(mod, out)
     gen_switch(mod, out)
     gen_lookup(mod, out)
     gen_inbound(out)
